@@ -165,6 +165,85 @@ def run_schedule(env, sched, hooks, rounds=1):
             "asserts": [term_io.export(a) for a in asserts], "rounds": out_rounds}
 
 
+def smtlib_member_runs(ck, quick, id0):
+    """Portfolio queries whose members are real SmtLibSolver objects driving harness/fakes/smt_member.py.
+    Each query runs in its own process (own session).  Blocking is decided structurally plus a grace period:
+    every external solver process has ended (its marker file exists) - so nobody can answer any more - and
+    the query is still waiting GRACE seconds later."""
+    import itertools
+    import json
+    import os
+    import shutil
+    import signal
+    import subprocess
+    import sys
+    import tempfile
+    from harness.common import REPO, VERIF
+    GRACE, LIMIT = 12.0, 90.0
+    behs = ["good", "unknown", "crash_checksat", "crash_start", "crash_assert"]
+    vectors = [list(v) for v in itertools.product(behs, repeat=2)]
+    triples = [list(v) for v in itertools.product(behs, repeat=3)]
+    vectors += triples if not quick else [t for k, t in enumerate(triples) if (k + ck.seed) % 9 == 0]
+    m = fresh_env().formula_manager
+    p, q = m.Symbol("p", BOOL), m.Symbol("q", BOOL)
+    asserts = [term_io.export(m.Or(p, q)), term_io.export(p)]
+    scen = os.path.join(VERIF, "harness", "fakes", "portfolio_smtlib_scenario.py")
+    evs = []
+    running = []
+
+    def start(vec):
+        d = tempfile.mkdtemp(prefix="c19m_")
+        env = dict(os.environ, VERIF_REPO=REPO, PYTHONPATH=REPO)
+        pr = subprocess.Popen([sys.executable, scen, os.path.join(d, "out.json"), d] + vec, env=env, start_new_session=True,
+                              stdout=subprocess.DEVNULL, stderr=subprocess.DEVNULL)
+        return {"vec": vec, "dir": d, "proc": pr, "t0": time.time(), "all_ended_at": None}
+
+    def finish(r, res):
+        try:
+            os.killpg(r["proc"].pid, signal.SIGKILL)
+        except Exception:
+            pass
+        r["proc"].wait()
+        shutil.rmtree(r["dir"], ignore_errors=True)
+        vec = r["vec"]
+        beh = ["sat" if b == "good" else ("unknown" if b == "unknown" else "crash_pre") for b in vec]
+        rd = {"res": res.get("res", "slow"), "exc": res.get("exc", ""), "model": [], "value": res.get("value", "na"), "served": [],
+              "winner": 0, "has_model": False, "verdict": "sat", "asserts": asserts}
+        if rd["res"] == "sat" and res.get("model"):
+            rd["model"] = [{"n": n_, "v": term_io.export(m.Bool(v_))} for n_, v_ in res["model"]]
+            rd["has_model"] = True
+        evs.append({"id": id0 + len(evs), "kind": "portfolio", "beh": beh, "verdict": "sat", "order": [], "late": [], "tie": False,
+                    "asserts": asserts, "rounds": [rd], "members": "smtlib:" + ",".join(vec)})
+        ck.count()
+        ck.nontrivial(("smtlib", tuple(vec)))
+
+    pending = list(vectors)
+    while pending or running:
+        while pending and len(running) < 6:
+            running.append(start(pending.pop()))
+        time.sleep(0.1)
+        for r in list(running):
+            out = os.path.join(r["dir"], "out.json")
+            now = time.time()
+            if os.path.exists(out):
+                running.remove(r)
+                finish(r, json.load(open(out)))
+            elif r["proc"].poll() is not None:
+                running.remove(r)
+                finish(r, {"res": "raised", "exc": "scenario process ended without a result (rc %s)" % r["proc"].returncode})
+            else:
+                ended = all(os.path.exists(os.path.join(r["dir"], "m%d" % (i + 1))) for i in range(len(r["vec"])))
+                if ended and r["all_ended_at"] is None:
+                    r["all_ended_at"] = now
+                if r["all_ended_at"] is not None and now - r["all_ended_at"] > GRACE:
+                    running.remove(r)
+                    finish(r, {"res": "blocked"})
+                elif now - r["t0"] > LIMIT:
+                    running.remove(r)
+                    finish(r, {"res": "slow"})
+    return evs
+
+
 def run(ck):
     warnings.simplefilter("ignore")
     quick = ck.tier == "quick"
@@ -208,6 +287,9 @@ def run(ck):
                 ck.nontrivial((tuple(ev["beh"]), tuple(ev["order"]), tuple(ev["late"]), ev["tie"], len(ev["rounds"])))
     finally:
         hooks.uninstall()
+    sm = smtlib_member_runs(ck, quick, len(scheds) + 10)
+    evs += sm
+    ck.part("smtlib_members", runs=len(sm), behaviours=["good", "unknown", "crash_checksat", "crash_start", "crash_assert"])
     slow = [e["id"] for e in evs if any(r["res"] == "slow" for r in e["rounds"])]
     if slow:
         ck.note("runs that did not finish within the harness limit although a member was still alive: %s" % slow[:5])
@@ -219,8 +301,11 @@ def run(ck):
     for i, fails in verdicts.items():
         e = byid[i]
         for cl in fails:
-            ck.violation({"kind": "portfolio", "clause": cl, "beh": e["beh"], "late": e["late"], "tie": e["tie"],
-                          "res": [r["res"] for r in e["rounds"]]}, {"event": e})
+            sig = {"kind": "portfolio", "clause": cl, "beh": e["beh"], "late": e["late"], "tie": e["tie"],
+                   "res": [r["res"] for r in e["rounds"]]}
+            if e.get("members"):
+                sig["members"] = e["members"]
+            ck.violation(sig, {"event": e})
     ck.part("schedules", n2_total=len(n2), n3_total=len(n3), used=len(scheds), all_fail=len(allfail))
     ck.sample({k: evs[0][k] for k in ("beh", "order", "late", "tie", "rounds")})
     ck.sample({k: evs[-1][k] for k in ("beh", "order", "late", "tie", "rounds")})
